@@ -58,6 +58,17 @@ CHECKS = {
              'timescales 1..10^7) and TLC evaluates round-trip, field-range, text-value, inverse and monotonicity clauses on every result.',
         note='Trusted: TLC; regex tokenisation and lexical xs:duration/xs:dateTime classification in the projection. Durations >= 0.',
         design='4 C19'),
+    'C15': dict(
+        technique='TLA+ spec Auth.tla: TLC exhaustive CSRF life-cycle machine (issue/use/reuse/cross-service/cross-cookie/tamper/restart); '
+                  'graph walks replayed on the real app incl. real restarts; full route x method x role sweep with state digests; TLC trace validation',
+        text='TLC explores every interleaving of CSRF issue/present/tamper/restart in small scope; scripted and seeded walks through that '
+             'graph run on the real application (two cookie jars, real endpoints, create_app over the same SQLite file for Restart) with '
+             'acceptance observed through the csrf_check hook; every route of the live routing table is requested with every method, role '
+             'and parameter variant while the SHA-256 of all tables and the blob listing is compared; TLC evaluates '
+             'C15_ChangeImpliesAuthorised and the four CSRF clauses on every line.',
+        note='Trusted: TLC; flask_login stand-in (session protocol only); the role oracle in spec/Auth.tla; sqlite3 digests. The vacuity '
+             'guard lists which mutating routes were shown to change state for an authorised role (evidence: sweep_effective_route_methods).',
+        design='4 C15'),
     'C20': dict(
         technique='TLA+ spec BufferedReader.tla: TLC exhaustive refinement check (implementation-shaped cache model vs '
                   'in-memory stream) + every model edge replayed on the real class + TLC trace validation of recorded calls',
